@@ -8,14 +8,18 @@ CLAIMS = {
  'C07': ('Lean 4 theorems calc_bid_score_is_law / calc_score_is_law: the model of calc_bid_score and calc_score (literal tables) '
          'equals the duplicate scoring law written as formulas, on the complete domain, by kernel evaluation (decide +kernel) lifted to the '
          'typed forall; the model is tied to /repo by an EXHAUSTIVE correspondence run (all 45 360 inputs, every run), so on this finite domain '
-         'the implementation is the model pointwise and the theorem transfers without a sampling gap.',
+         'the implementation is the model pointwise and the theorem transfers without a sampling gap. ALSO the code as TRANSLATED on this run '
+         '(harness/translate_py.py -> Generated/PyCoreBase.lean, executed by the MiniPy interpreter of Model/MiniPy.lean): '
+         'C07t.translated_calc_bid_score_is_law / _rejects_non_bids and translated_contract_is_model, by kernel evaluation of the translated '
+         'program over the complete domain; the bonus constants and tables are translated too (Generated/ScoreTables.lean).',
          'Trusted: Lean kernel (axioms: propext only), the formula statement of the scoring law in Spec/Scoring.lean, CPython int/tuple semantics, '
          'the harness that enumerates the domain through the public API.',
          'Lean 4 proof (decide +kernel over the full table) + exhaustive model/implementation correspondence'),
  'C16': ('Lean 4 theorems for every Int: imps_is_scale (the while-loop scan equals the count of official thresholds reached, signed), '
          'imps_bounds, imps_zero_below_20, imps_24_from_4000, imps_odd, imps_monotone, score_to_imp_is_sum; proved by induction over the '
          'ascending threshold list, no bound on the magnitude. Correspondence: every integer in [-4200,4200], powers of 2 and 10 up to 1e40 '
-         'with neighbours, random big integers, pairs.',
+         'with neighbours, random big integers, pairs. ALSO for the code as TRANSLATED on this run (Generated/PyCoreBase.lean under MiniPy): '
+         'C16t.translated_imps_is_scale and translated_score_to_imp_is_sum for EVERY integer, by symbolic execution with a loop invariant.',
          'Trusted: Lean kernel (propext, Classical.choice, Quot.sound), the threshold list in Spec/Scoring.lean as the official scale '
          '(IMPS_LIST_is_official ties the code table to it), CPython unbounded int semantics; model faithfulness outside the sampled integers.',
          'Lean 4 proof by induction (unbounded Int) + dense differential correspondence'),
@@ -24,20 +28,26 @@ CLAIMS = {
          'prescribe (illegal / ongoing / finished / error) and advertises exactly the legal set while open; one-step forms '
          'take_bid_accepts_iff_legal, illegal_reported_and_state_unchanged, avail_vector_is_legal_set. Proof by an invariant (AInv) '
          'preserved by take_bid, unbounded histories. The Laws are stated on the history alone (Spec/Laws.lean: legalLaw, EndedLaw). '
-         'Model tied to /repo by step-wise differential correspondence of every public observable after every offered call.',
+         'Model tied to /repo by step-wise differential correspondence of every public observable after every offered call, AND by translation: '
+         'bidding_phase.py is re-written on every run into a MiniPy program (Generated/PyCoreAuction.lean) and Translated/Auction.lean proves, '
+         'by symbolic execution on a symbolic state, that the translated __init__/take_bid/has_done/contract ARE the model on every state and '
+         'call; C01t.translated_auction_refines_laws states the property for the translated object. The translated program is also run next '
+         'to the real object (complete state after every call) on every run.',
          'Trusted: Lean kernel (propext, Classical.choice, Quot.sound); the statement of the Laws in Spec/Laws.lean; model faithfulness '
          'on auctions not sampled by the correspondence campaign (distribution in the evidence); numpy 0/1 vector semantics.',
          'Lean 4 proof (refinement invariant, induction over the offered-call list) + differential correspondence'),
  'C02': ('Lean 4 theorems: turn_rotates, active_is_turn, per_seat_is_share, over_iff_ended_law and finishes_iff_ended (the model finishes '
          'exactly when the new history satisfies the Law: four opening passes or three passes after a non-pass; never earlier or later), '
          'after_end_raises_and_unchanged / after_end_run_unchanged, auction_terminates (<= 319 calls, by a lexicographic potential) '
-         'with bound_is_attained (a legal 319-call auction, kernel-evaluated). All for every reachable state, unbounded.',
+         'with bound_is_attained (a legal 319-call auction, kernel-evaluated). All for every reachable state, unbounded. C02t.translated_run_is_model: '
+         'every run of the TRANSLATED BiddingPhase (Generated/PyCoreAuction.lean under MiniPy) is the model\'s run.',
          'Trusted: as C01.',
          'Lean 4 proof (invariant + potential function) + differential correspondence'),
  'C03': ('Lean 4 theorems: contract_none_before_end, contract_is_spec (ended => contract = specContract: last bid, doubling status from the '
          'calls after it, board vulnerability, declarer = first member of the last bidder\'s side to name the denomination), '
          'first_namer_some/first_namer_none/declarer_is_first_namer (declarative characterisation of the declarer), '
-         'superseded_double_cleared, passed_out_iff_no_bid, passed_out_shape, flags_follow_status. Every reachable state.',
+         'superseded_double_cleared, passed_out_iff_no_bid, passed_out_shape, flags_follow_status. Every reachable state. '
+         'C03t.translated_contract_is_spec: the TRANSLATED contract() returns the encoding of that contract at every reachable state.',
          'Trusted: as C01; the contract is compared through doubling STATUS, level/denomination, vulnerability and declarer.',
          'Lean 4 proof (refinement invariant) + differential correspondence'),
  'C04': ('Lean 4 theorems about the model of PlayingPhase: calc_highest_spec (the loop returns the first maximal card of the suit, -1 iff none/NT), '
@@ -68,7 +78,10 @@ CLAIMS = {
          'Lean 4 proof (string-level round trip through the scanner model) + differential correspondence'),
  'C15': ('Lean 4 theorems by kernel evaluation over the COMPLETE finite domains: round trips and injectivity of every notation of the 52 cards, 38 calls, '
          '4 seats, 4 vulnerabilities (3 spellings + synonyms), 5 suits; card order = index order on all 52x52 pairs; contract text round trip on '
-         '35 bids x 4 flag combinations x 4 vul x 5 declarers + passed out. Correspondence EXHAUSTIVE on the same domains plus adversarial strings.',
+         '35 bids x 4 flag combinations x 4 vul x 5 declarers + passed out. Correspondence EXHAUSTIVE on the same domains plus adversarial strings. '
+         'ALSO the notation functions as TRANSLATED from the source on this run (Generated/PyCoreBase.lean under the MiniPy interpreter) are '
+         'proved equal to the model functions on their complete domains by kernel evaluation (Translated/Notation.lean: 17 theorems; '
+         'Translated/Contract.lean: every method of Contract on all 2 880 contract values).',
          'Trusted: Lean kernel (propext only for most); exhaustive correspondence on the value domains; parsers compared on stated finite ASCII string sets.',
          'Lean 4 proof (decide over complete finite domains) + exhaustive correspondence'),
 
